@@ -340,8 +340,20 @@ func reachesCounter(pf *pendingFacts, fn *ssa.Function, p *ssa.Parameter, depth 
 	if p == nil || depth <= 0 {
 		return false, "no request parameter in " + core.FuncName(fn)
 	}
+	// a tick's value must be delivered whatever it is: no test on the request guards the hand-over
+	conditional := func(in ssa.Instruction) string {
+		for _, g := range an.GuardsOf(in.Block()) {
+			if dependsOn(g.Cond, p) {
+				return sprintf("%s forwards the request only when %s is %v: a tick whose value fails that test is not delivered, so what the previous tick left pending keeps running", core.FuncName(fn), an.D().Of(g.Cond), g.Polarity)
+			}
+		}
+		return ""
+	}
 	for _, op := range pf.ops {
 		if op.Fn == fn && (op.Op == "Swap" || op.Op == "Store") && an.Strip(op.Call.Common().Args[1]) == ssa.Value(p) {
+			if why := conditional(op.Call); why != "" {
+				return false, why
+			}
 			return true, fn.Name()
 		}
 	}
@@ -359,8 +371,15 @@ func reachesCounter(pf *pendingFacts, fn *ssa.Function, p *ssa.Parameter, depth 
 		}
 		for i, a := range call.Common().Args {
 			if an.Strip(a) == ssa.Value(p) && i < len(t.Params) {
-				if ok, why := reachesCounter(pf, t, t.Params[i], depth-1); ok {
+				if why := conditional(call); why != "" {
+					return false, why
+				}
+				ok, why := reachesCounter(pf, t, t.Params[i], depth-1)
+				if ok {
 					return true, fn.Name() + " → " + why
+				}
+				if strings.Contains(why, "forwards the request only when") {
+					return false, why
 				}
 			}
 		}
